@@ -19,6 +19,8 @@ pub fn tick(c: &std::cell::Cell<i64>) {
     c.set(c.get() + 1);
     TICKS.fetch_add(1, std::sync::atomic::Ordering::SeqCst);
 }
+/// hygiene probe: reads a caller local with a plausible name
+pub fn touch(_c: &std::cell::Cell<i64>) {}
 /// every tick must have reached the caller's own local
 pub fn same_ticks(c: &std::cell::Cell<i64>) {
     let g = TICKS.load(std::sync::atomic::Ordering::SeqCst);
